@@ -70,6 +70,33 @@ def csrHandler (ν : Type) (dataWidth addressWidth alignment paging : Nat) : Exc
 def irqHandler (ν : Type) (nIrqs : Nat) : Except LocErr (LocH ν) :=
   if nIrqs > 32 then .error .badParam else .ok { nLocs := nIrqs, enabled := false }
 
+namespace LocH
+variable {ν : Type} [DecidableEq ν]
+
+/-- `for name, n in reserved.items(): self.add(name, n)` of the handler constructors (first failure aborts). -/
+def addAll (s : LocH ν) : List (ν × Int) → Except LocErr (LocH ν)
+  | [] => .ok s
+  | (n, k) :: rest =>
+    match s.add n (some k) false with
+    | .ok s' => s'.addAll rest
+    | .error e => .error e
+
+end LocH
+
+/-- `SoCCSRHandler(..., reserved_csrs=reserved)`. -/
+def csrHandlerR (ν : Type) [DecidableEq ν] (dataWidth addressWidth alignment paging : Nat) (reserved : List (ν × Int)) :
+    Except LocErr (LocH ν) :=
+  match csrHandler ν dataWidth addressWidth alignment paging with
+  | .ok h => h.addAll reserved
+  | .error e => .error e
+
+/-- `SoCIRQHandler(n_irqs, reserved_irqs=reserved)`: the reserved IRQs are added while the handler is still
+    disabled, so a non-empty `reserved_irqs` is always refused (as the code stands). -/
+def irqHandlerR (ν : Type) [DecidableEq ν] (nIrqs : Nat) (reserved : List (ν × Int)) : Except LocErr (LocH ν) :=
+  match irqHandler ν nIrqs with
+  | .ok h => h.addAll reserved
+  | .error e => .error e
+
 inductive LocOp (ν : Type)
   | add (name : ν) (n : Option Int) (useIfExists : Bool)
   | addressMap (name : ν)
